@@ -132,3 +132,14 @@ int lib_lzma_easy_encoder(struct lzma_stream_s *s, unsigned int preset, int chec
   __CPROVER_assert(check == 0 || check == 1 || check == 4 || check == 10, "lzma_easy_encoder integrity check is one defined by the .xz format");
   if (nondet_bool()) return 5; g_z_open = 1; g_z_finished = 0; g_z_in = 0; g_z_out = 0; g_fwd = 0; s->internal = (void *)1; return 0; }
 void lib_lzma_end(struct lzma_stream_s *s) { if (g_exc) return; __CPROVER_assert(g_z_open, "lzma_end on an open stream"); g_z_open = 0; s->internal = 0; }
+
+/* ---- std::make_unique<Writer<T>>(value, suffix) in the constructors of the compressing writers: the inner writer's creation is observed (name, suffix characters);
+   opening the inner output may fail */
+unsigned long g_mk_count, g_mk_name; int g_mk_fd; char g_mk_e[4];
+#define uptr_assign(p, v) (*(p) = (v))
+void *make_unique__Writer_str(cstring value, char *ext)
+{ if (g_exc) return (void *)0; if (g_mk_count < 1000) g_mk_count++; g_mk_name = value.id; g_mk_e[0] = ext[0]; g_mk_e[1] = ext[1]; g_mk_e[2] = ext[2]; g_mk_e[3] = ext[3];
+  if (nondet_bool()) g_exc = EXC_CborOutputException; return (void *)1; }
+void *make_unique__Writer_i32(int value, char *ext)
+{ if (g_exc) return (void *)0; if (g_mk_count < 1000) g_mk_count++; g_mk_fd = value; g_mk_e[0] = ext[0]; g_mk_e[1] = ext[1]; g_mk_e[2] = ext[2]; g_mk_e[3] = ext[3];
+  if (nondet_bool()) g_exc = EXC_CborOutputException; return (void *)1; }
